@@ -88,7 +88,15 @@ def volatile_form(rng, inner, kind, array=False):
         if k == 3:
             return ['op', '+', ['f', 'IF', ['op', '>', inner, ['n', 0]], site,
                                 ['n', 5]], ['n', 0]]
-        return ['op', '+', ['f', 'SUM', ['n', 1], site], inner]
+        k2 = rng.randrange(4)
+        if k2 == 0:
+            return ['op', '+', ['f', 'SUM', ['n', 1], site], inner]
+        if k2 == 1:
+            return ['f', 'IFERROR', ['op', '+', site, inner], ['n', 0]]
+        if k2 == 2:
+            return ['f', 'MAX', site, ['n', 0]]
+        return ['f', 'IF', ['op', '>', inner, ['n', 0]], ['n', 5],
+                ['op', '+', site, ['n', 1]]]
     if kind == 'RAND':
         site = ['f', 'RAND']
         k = rng.randrange(5)
